@@ -34,9 +34,9 @@ func flush64(b uint64) uint64 {
 	}
 	return b
 }
-func f32(b uint32) float32 { return math.Float32frombits(b) }
+func f32(b uint32) float32  { return math.Float32frombits(b) }
 func b32f(f float32) uint32 { return math.Float32bits(f) }
-func f64(b uint64) float64 { return math.Float64frombits(b) }
+func f64(b uint64) float64  { return math.Float64frombits(b) }
 func b64f(f float64) uint64 { return math.Float64bits(f) }
 
 // fres accumulates the acceptable results of one lane.
@@ -256,8 +256,8 @@ func minmax64(c *VCtx, a, b uint64, isMax bool) {
 				r.addv(y)
 			}
 		}
-		// IEEE mode may quiet a signalling NaN instead of returning the number
-		if isNaN64(x) || isNaN64(y) {
+		// IEEE mode quiets a signalling NaN instead of returning the number
+		if (isNaN64(x) && x&0x0008000000000000 == 0) || (isNaN64(y) && y&0x0008000000000000 == 0) {
 			r.nan = true
 		}
 		r.addv(o)
